@@ -215,6 +215,9 @@ def class_mappings(m, spec, v, nspec):
     return out
 
 
+ctx_count = [0]      # corruption rounds on a parameterless class's mapping
+
+
 def corruptions(m, spec, v, nspec, rng):
     """Yield (kind, corrupted spec, site paths dict, key names)."""
     cms = class_mappings(m, spec, v, nspec)
@@ -236,8 +239,12 @@ def corruptions(m, spec, v, nspec, rng):
         new = rng.choice([x for x in SWAPS if x[0] != 's' or x[1] != s[1]])
         yield 'wrong_type', D.set_at(nspec, p, new), p, None
     rng.shuffle(cms)
+    # (the mapping of a parameterless class first, if there is one)
+    cms.sort(key=lambda pc: pc[1] != 'Void0')
     for p, cname in cms[:3]:
         c = m.cspecs[cname]
+        if cname == 'Void0':
+            ctx_count[0] += 1
         node = D.get_at(nspec, p)
         params = {q['name']: q for q in c.get('params', [])}
         keys = [k[2] if k[0] == 's' else None for k, _ in node[1]]
@@ -271,7 +278,9 @@ def corruptions(m, spec, v, nspec, rng):
             if c.get('extra'):
                 continue
             newk = rng.choice(['verif_unknown', 'zzz', 'extra_thing', 'self',
-                               'cls', 'args'])
+                               'cls', 'args', 'gr\u00f6\u00dfe', 'h\u00f6he',
+                               '\u952e', 'd\u00e9pth', 'a"b', 'a\\b', '{x}',
+                               '%s', '2nd'])
             if newk in keys:
                 continue
             knode = N.s_str(newk)
@@ -386,6 +395,24 @@ def widen(spec, rng):
                                 'default': i})
 
 
+def add_void_class(spec, rng):
+    """A class without any parameter as the type of a required attribute
+    of one plain class: its mapping is empty, every key in it is unknown."""
+    plains = [c for c in spec['classes'] if c.get('kind', 'plain') == 'plain'
+              and not c.get('parsed') and not c.get('recognize')
+              and not c.get('savorize') and not c.get('sweeten')
+              and c.get('params')]
+    if not plains or any(c['name'] == 'Void0' for c in spec['classes']):
+        return
+    c = rng.choice(plains)
+    c['params'].insert(0, {'name': '%s_void' % c['name'].lower(),
+                           'type': ['cls', 'Void0']})
+    spec['classes'].insert(0, {'name': 'Void0', 'kind': 'plain',
+                               'params': []})
+    if 'order' in spec:
+        spec['order'] = ['Void0'] + spec['order']
+
+
 def hierarchy_free(spec):
     return all(not c.get('bases') for c in spec['classes'])
 
@@ -403,6 +430,8 @@ def shard(ctx):
             continue
         if rng.random() < 0.3:
             widen(spec, rng)
+        if rng.random() < 0.15:
+            add_void_class(spec, rng)
         try:
             m = H.model_of(spec)
         except Exception:
